@@ -165,7 +165,7 @@ def first_view_diff(a: Any, b: Any, at: str = 'root') -> dict[str, Any] | None:
 
 class C15(Engine):
 	prop = 'C15'
-	rule = ('case = one history (edit/touch/run/lose/clear) over a generated pool; after every run each loaded module tree (restored from the cache '
+	rule = ('case = one history (edit/touch/run/lose/clear; runs optionally refused / killed between the file operations that replace a stored tree) over a generated pool; after every run each loaded module tree (restored from the cache '
 		'or parsed) is compared field by field (names, token values, child order, empty placeholders, spans) and through derived views (full paths, '
 		'node classes, tokens, error quotations) with a fresh parse in a cache-less process. distinct_nontrivial = distinct (module, tree digest) '
 		'pairs that were actually restored from a stored file. Plus an enumeration pass: every stored tree truncated at stride/boundary offsets must fail to load')
@@ -186,6 +186,10 @@ class C15(Engine):
 			cases.append({'pool': pool, 'ops': [run, run], 'kind': 'canonical'})
 			cases.append({'pool': pool, 'ops': [run, {'op': 'edit', 'm': leaf, 'v': 1, 'dt': 10**9}, run, run], 'kind': 'canonical'})
 			cases.append({'pool': pool, 'ops': [run, {'op': 'touch', 'm': leaf, 'dt': 10**9}, run, {'op': 'lose', 'pick': 0.3, 'cls': 'symbols'}, run], 'kind': 'canonical'})
+			# a run that dies / is refused between the file operations that replace a stored tree, then fault-free runs: what they restore must be the current tree
+			F = lambda **kw: {'op': 'run', 'fault': kw}
+			cases.append({'pool': pool, 'ops': [run, {'op': 'edit', 'm': leaf, 'v': 1, 'dt': 10**9}, F(kind='eacces@open', pick=0.5, prefer='tree'), run, run], 'kind': 'canonical'})
+			cases.append({'pool': pool, 'ops': [run, {'op': 'edit', 'm': leaf, 'v': 2, 'dt': 10**9}, F(kind='crash@after-unlink', pick=0.0, prefer=None), run, {'op': 'edit', 'm': leaf, 'v': 0, 'dt': 10**9}, F(kind='eacces@unlink', pick=0.0, prefer=None), run, run], 'kind': 'canonical'})
 		for variant in sorted(GRAMMAR_VARIANTS):
 			cases.append({'pool': pools.fixed_pool(1), 'ops': [], 'kind': 'grammar', 'variant': variant})
 		ex = pools.example_pool()
@@ -197,6 +201,7 @@ class C15(Engine):
 		pool = pools.gen_pool(rng, allow_invalid=False)
 		mods = pool['modules']
 		ops: list[dict[str, Any]] = [{'op': 'run'}]
+		faulty = rng.random() < 0.4
 		for _ in range(rng.randint(2, 6)):
 			r = rng.random()
 			if r < 0.45:
@@ -206,6 +211,8 @@ class C15(Engine):
 				ops.append({'op': 'touch', 'm': rng.choice(mods), 'dt': 10**9})
 			elif r < 0.65:
 				ops.append({'op': 'lose', 'pick': round(rng.random(), 4), 'cls': rng.choice(['symbols', 'tree', None])})
+			elif faulty and r < 0.8:
+				ops.append({'op': 'run', 'fault': {'kind': rng.choice(['eacces@open', 'eacces@unlink', 'crash@after-unlink', 'crash@open', 'crash@between-files']), 'pick': round(rng.random(), 4), 'prefer': rng.choice([None, 'tree', 'tree', 'after-unlink'])}})
 			else:
 				ops.append({'op': 'run'})
 		ops.append({'op': 'run'})
